@@ -1,6 +1,7 @@
 package props
 
 import (
+	"strings"
 	"fmt"
 	"go/token"
 
@@ -228,5 +229,93 @@ func c09Accounts(p *load.Prog, r *oblig.Run) {
 	}
 	if k == 0 {
 		r.Add("R09.e", "iteration paths", p.Pos(mn.Pos()), "paths").Unknown("no feasible path through the loop body")
+	}
+}
+
+// c09KindOnlyEquals (R09.f): which node kinds are equal to every node of their kind. BIRT, DEAT, BAPM and BURI
+// records of one individual describe one event - their content lives in their children - so their Equals answers
+// true for the kind alone (reviewed list). Any other Equals method that can answer true on a path that compared
+// nothing but kinds and nil-ness makes two nodes with different values "equal": a merge keeps only the left value
+// (SEX U stays although the other file says SEX F) and a diff pairs them as unchanged.
+func c09KindOnlyEquals(p *load.Prog, r *oblig.Run) {
+	r.Rule("R09.f", "an Equals method answers true for the kind alone only for the reviewed event kinds (BIRT, DEAT, BAPM, BURI)", 5)
+	reviewed := map[string]bool{"BirthNode": true, "DeathNode": true, "BaptismNode": true, "BurialNode": true}
+	for _, fn := range p.Repo {
+		if pkgPathOf(fn) != load.PkgRoot || fn.Name() != "Equals" || fn.Signature.Recv() == nil || fn.Synthetic != "" || len(fn.Blocks) == 0 {
+			continue
+		}
+		tn := ""
+		if n := load.NamedOf(fn.Signature.Recv().Type()); n != nil {
+			tn = n.Obj().Name()
+		}
+		if !strings.HasSuffix(tn, "Node") {
+			continue
+		}
+		env := &descEnv{p: p, params: map[*ssa.Parameter]string{}, noInline: true}
+		kindOnly := ""
+		for _, b := range fn.Blocks {
+			ret, ok := b.Instrs[len(b.Instrs)-1].(*ssa.Return)
+			if !ok || len(ret.Results) != 1 {
+				continue
+			}
+			type cand struct{ blk *ssa.BasicBlock }
+			var cands []*ssa.BasicBlock
+			if k, isK := ret.Results[0].(*ssa.Const); isK && k.Value != nil && k.Value.ExactString() == "true" {
+				cands = append(cands, b)
+			}
+			// `return ok` of a type assertion: true for the kind alone
+			if ex, isEx := ret.Results[0].(*ssa.Extract); isEx && ex.Index == 1 {
+				if ta, isTA := ex.Tuple.(*ssa.TypeAssert); isTA && ta.CommaOk {
+					cands = append(cands, b)
+				}
+			}
+			if ph, isPhi := ret.Results[0].(*ssa.Phi); isPhi && ph.Block() == b {
+				for i, e := range ph.Edges {
+					if k, isK := e.(*ssa.Const); isK && k.Value != nil && k.Value.ExactString() == "true" {
+						cands = append(cands, b.Preds[i])
+					}
+					if ex, isEx := e.(*ssa.Extract); isEx && ex.Index == 1 {
+						if ta, isTA := ex.Tuple.(*ssa.TypeAssert); isTA && ta.CommaOk {
+							cands = append(cands, b.Preds[i])
+						}
+					}
+				}
+			}
+			for _, cb := range cands {
+				compares := false
+				facts := env.blockFacts(cb, 0)
+				if iff, isIf := cb.Instrs[len(cb.Instrs)-1].(*ssa.If); isIf && cb != b {
+					facts = append(facts, env.condFacts(iff.Cond, cb.Succs[0] == b, 0)...)
+				}
+				for _, f := range facts {
+					a := f.atom
+					if strings.HasPrefix(a, "IsNil(") || strings.HasPrefix(a, "nil==") || strings.HasSuffix(a, "==nil") {
+						continue
+					}
+					if strings.HasSuffix(a, "#1") && !strings.Contains(a, "(") {
+						continue // the ok of a type assertion
+					}
+					if strings.Contains(a, "p0") && strings.Contains(a, "p1") {
+						compares = true // some predicate over both operands (a helper such as anyDatesEqual(left.Dates(), right.Dates()))
+					}
+					if strings.Contains(a, "Value(") || strings.Contains(a, ".value") || strings.Contains(a, "Equals(") || strings.Contains(a, "DeepEqual") ||
+						strings.Contains(a, "String(") || strings.Contains(a, "Pointer(") || strings.Contains(a, "==") || strings.Contains(a, "<") {
+						compares = true
+					}
+				}
+				if !compares {
+					kindOnly = p.Pos(ret.Pos())
+				}
+			}
+		}
+		o := r.Add("R09.f", "kind-only equality of "+tn, p.Pos(fn.Pos()), "answers true without comparing values or children")
+		switch {
+		case kindOnly == "":
+			o.OK("every true answer follows a comparison of values, pointers or children")
+		case reviewed[tn]:
+			o.OK("reviewed: all " + tn + " records of an individual describe the same event; their content is in their children")
+		default:
+			o.Fail("(*" + tn + ").Equals answers true (return at " + kindOnly + ") for any two nodes of its kind without comparing their values or children: nodes that record different values are 'equal' - MergeNodes keeps the left one and drops what the right one says, and a diff shows them as unchanged")
+		}
 	}
 }
